@@ -27,7 +27,7 @@ func init() {
 			"which order a map is visited in is not prescribed, only that it is fixed; errors count as outputs (the same error text every time is deterministic)",
 			"both processes run with the same TZ; integer timestamps are formatted in that zone",
 		},
-		quick: 24000, thorough: 150000, minQuick: 3000, minThorough: 50000,
+		quick: 24000, thorough: 300000, minQuick: 3000, minThorough: 50000,
 	}}
 	Register(p)
 	oneshots["C03"] = p.oneshot
